@@ -17,6 +17,12 @@ func ghostHeapSort(name string) Sort {
 		return ArrOf(SInt, SString)
 	case "G:rdpos", "G:xdpos", "G:xddepth":
 		return ArrOf(SInt, SInt)
+	case "G:jeEsc", "G:jdNum":
+		return ArrOf(SInt, SBool)
+	case "G:jePre", "G:jeInd":
+		return ArrOf(SInt, SString)
+	case "G:jeW", "G:jdSrc":
+		return ArrOf(SInt, SVal)
 	case "G:rdeof":
 		return ArrOf(SInt, SBool)
 	}
@@ -65,6 +71,8 @@ func ghostIntrinsicHeaps(fn *ssa.Function) []string {
 		return []string{"G:xddepth"}
 	case "verifHeight":
 		return []string{"Mdom:map[string]interface{}", "Msel:map[string]interface{}"}
+	case "verifJsonText", "verifJsonErr", "verifJsonDecodedAs":
+		return []string{"Mdom:map[string]interface{}", "Msel:map[string]interface{}", "Mlen:map[string]interface{}"}
 	}
 	return nil
 }
@@ -114,6 +122,20 @@ func (c *FnCtx) ghostIntrinsic(fr *Frame, st *State, fn *ssa.Function, args []*T
 		return []*Term{ts.UF("infallibleWriter", SBool, args[0])}, true
 	case "verifIsByteReader":
 		return []*Term{c.implementsNamed(st, args[0], "io", "ByteReader")}, true
+	case "verifJsonText": // encoding/json's text for a value: (value, escapeHTML, prefix, indent)
+		t, _ := c.jsonText(st, args[0], args[1])
+		return []*Term{t}, true
+	case "verifJsonIndent":
+		return []*Term{ts.UF("jsonIndent", SString, args[0], args[1], args[2])}, true
+	case "verifJsonErr":
+		_, e := c.jsonText(st, args[0], ts.Bool(true))
+		return []*Term{e}, true
+	case "verifJsonDecErr":
+		return []*Term{ts.UF("jsonDecErr", SVal, args[0], args[1])}, true
+	case "verifJsonDecodedAs":
+		mt := types.NewMap(types.Typ[types.String], types.NewInterfaceType(nil, nil))
+		mh := c.mapHeaps(st, mt)
+		return []*Term{ts.UF("jsonDecodedAs", SBool, c.heap(st, mh.dom, mh.sdom), c.heap(st, mh.sel, mh.ssel), c.heap(st, mh.ln, mh.sln), args[0], args[1], args[2])}, true
 	case "verifSameMap": // identity of two maps
 		return []*Term{ts.Eq(args[0], args[1])}, true
 	case "verifSameVal": // equality of two values (maps by identity)
@@ -269,6 +291,10 @@ func (c *FnCtx) model(fr *Frame, st *State, x *ssa.Call, name string, args []*Te
 		r := ts.UF("bytes.Replace", SString, args[0], args[1], args[2], args[3])
 		c.addFactT(st, r, ts.Implies(ts.And(ts.Not(ts.Eq(args[1], ts.Str(""))), ts.Lt(args[3], ts.Int(0))), ts.Eq(r, ts.App("str.replace_all", SString, args[0], args[1], args[2]))))
 		return []*Term{r}
+	case "bytes.TrimSuffix", "strings.TrimSuffix":
+		use(name + ": removes the suffix when present")
+		has := ts.App("str.suffixof", SBool, args[1], args[0])
+		return []*Term{ts.Ite(has, ts.Extract(args[0], ts.Int(0), ts.Sub(ts.Len(args[0]), ts.Len(args[1]))), args[0])}
 	case "bytes.Count":
 		r := ts.UF("bytes.Count", SInt, args[0], args[1])
 		c.addFact(st, ts.Ge(r, ts.Int(0)))
@@ -455,6 +481,69 @@ func (c *FnCtx) model(fr *Frame, st *State, x *ssa.Call, name string, args []*Te
 		return nil
 	case "time.Sleep":
 		return nil
+	case "encoding/json.Marshal", "encoding/json.MarshalIndent":
+		use("encoding/json.Marshal*/Encoder.Encode: the text is an uninterpreted function jsonText(value, escapeHTML, prefix, indent) of the value's content; the error a function jsonErr(value); no text on error")
+		txt, e := c.jsonText(st, args[0], ts.Bool(true))
+		if name == "encoding/json.MarshalIndent" {
+			txt = ts.UF("jsonIndent", SString, txt, args[1], args[2])
+		}
+		return []*Term{ts.Ite(tc.IsNilVal(e), txt, ts.Str("")), e}
+	case "encoding/json.Indent":
+		use("encoding/json.Indent(dst, src, prefix, indent): appends jsonIndent(src, prefix, indent) to dst; fails only on invalid JSON")
+		old := c.gget(st, "G:buf", args[0])
+		c.gset(st, "G:buf", args[0], ts.Concat(old, ts.UF("jsonIndent", SString, args[1], args[2], args[3])))
+		e := c.maybeErr(st, "indent")
+		c.addFact(st, ts.Implies(ts.UF("jsonValid", SBool, args[1]), tc.IsNilVal(e)))
+		return []*Term{e}
+	case "encoding/json.NewEncoder":
+		use("encoding/json.NewEncoder(w): encoder object with escapeHTML=true, no indentation, writing to w")
+		o := c.allocObj(st, "jsonenc")
+		c.gset(st, "G:jeEsc", o, ts.Bool(true))
+		c.gset(st, "G:jePre", o, ts.Str(""))
+		c.gset(st, "G:jeInd", o, ts.Str(""))
+		c.gset(st, "G:jeW", o, args[0])
+		return []*Term{o}
+	case "(*encoding/json.Encoder).SetEscapeHTML":
+		c.gset(st, "G:jeEsc", args[0], args[1])
+		return nil
+	case "(*encoding/json.Encoder).SetIndent":
+		c.gset(st, "G:jePre", args[0], args[1])
+		c.gset(st, "G:jeInd", args[0], args[2])
+		return nil
+	case "(*encoding/json.Encoder).Encode":
+		use("encoding/json.Marshal*/Encoder.Encode: the text is an uninterpreted function jsonText(value, escapeHTML, prefix, indent) of the value's content; the error a function jsonErr(value); no text on error")
+		txt, e := c.jsonText(st, args[1], c.gget(st, "G:jeEsc", args[0]))
+		{
+			pre, ind := c.gget(st, "G:jePre", args[0]), c.gget(st, "G:jeInd", args[0])
+			indentOn := ts.Not(ts.And(ts.Eq(pre, ts.Str("")), ts.Eq(ind, ts.Str(""))))
+			txt = ts.Ite(indentOn, ts.UF("jsonIndent", SString, txt, pre, ind), txt)
+		}
+		w := c.gget(st, "G:jeW", args[0])
+		out := ts.Ite(tc.IsNilVal(e), ts.Concat(txt, ts.Str("\n")), ts.Str(""))
+		// the encoder writes to its writer; in-memory buffers never fail
+		bufT := types.NewPointer(c.namedType("bytes", "Buffer"))
+		isBuf := tc.IsType(bufT, w)
+		bobj := tc.Unbox(bufT, w)
+		oldb := c.gget(st, "G:buf", bobj)
+		c.gset(st, "G:buf", bobj, ts.Ite(isBuf, ts.Concat(oldb, out), oldb))
+		id := c.ioID(w)
+		oldw := c.gget(st, "G:wr", id)
+		c.gset(st, "G:wr", id, ts.Ite(isBuf, oldw, ts.Concat(oldw, out)))
+		werr := c.maybeErr(st, "encwrite")
+		c.addFact(st, ts.Implies(isBuf, tc.IsNilVal(werr)))
+		return []*Term{ts.Ite(tc.IsNilVal(e), werr, e)}
+	case "encoding/json.NewDecoder":
+		use("encoding/json.NewDecoder(r) / Decoder.Decode(&m): decodes the next value of r's remaining bytes; value, error and end position are uninterpreted functions of those bytes and the UseNumber flag")
+		o := c.allocObj(st, "jsondec")
+		c.gset(st, "G:jdSrc", o, args[0])
+		c.gset(st, "G:jdNum", o, ts.Bool(false))
+		return []*Term{o}
+	case "(*encoding/json.Decoder).UseNumber":
+		c.gset(st, "G:jdNum", args[0], ts.Bool(true))
+		return nil
+	case "(*encoding/json.Decoder).Decode":
+		use("encoding/json.NewDecoder(r) / Decoder.Decode(&m): decodes the next value of r's remaining bytes; value, error and end position are uninterpreted functions of those bytes and the UseNumber flag")
+		return c.jsonDecode(fr, st, x, args, cc)
 	case "sort.Sort":
 		use("sort.Sort(x): permutes the underlying slice in place (same length, every element is one of the old elements); ordering facts are stated separately where needed")
 		o, ok := fr.origin[cc.Args[0]]
@@ -747,4 +836,106 @@ func (c *FnCtx) implementsNamed(st *State, v *Term, pkgName, name string) *Term 
 	}
 	unsupported("interface %s.%s not imported by the package", pkgName, name)
 	return nil
+}
+
+func (c *FnCtx) namedType(pkgName, name string) types.Type {
+	var find func(p *types.Package, seen map[*types.Package]bool) types.Type
+	find = func(p *types.Package, seen map[*types.Package]bool) types.Type {
+		if seen[p] {
+			return nil
+		}
+		seen[p] = true
+		if p.Name() == pkgName {
+			if o := p.Scope().Lookup(name); o != nil {
+				return o.Type()
+			}
+		}
+		for _, q := range p.Imports() {
+			if t := find(q, seen); t != nil {
+				return t
+			}
+		}
+		return nil
+	}
+	t := find(c.eng.ld.Pkg, map[*types.Package]bool{})
+	if t == nil {
+		unsupported("type %s.%s not available", pkgName, name)
+	}
+	return t
+}
+
+// jsonText / jsonErr: uninterpreted summaries of encoding/json's marshalling of a value (a function of the Map heaps).
+func (c *FnCtx) jsonText(st *State, v, esc *Term) (*Term, *Term) {
+	ts := c.eng.ts
+	c.eng.registerMapHeaps(types.NewMap(types.Typ[types.String], types.NewInterfaceType(nil, nil)))
+	var hs []*Term
+	for _, h := range []string{"Mdom:map[string]interface{}", "Msel:map[string]interface{}", "Mlen:map[string]interface{}"} {
+		hs = append(hs, c.heap(st, h, c.eng.heapSorts[h]))
+	}
+	v = c.normJsonVal(v)
+	txt := ts.UF("jsonText", SString, append(append([]*Term{}, hs...), v, esc)...)
+	// the text of a successfully marshalled value is valid JSON
+	c.addFactT(st, txt, ts.UF("jsonValid", SBool, txt))
+	// a map marshals to an object: the text starts with '{'
+	c.addFactT(st, txt, ts.Implies(ts.And(c.eng.tc.IsNilVal(e0(ts, hs, v)), ts.App("(_ is VMap)", SBool, v)), ts.App("str.prefixof", SBool, ts.Str("{"), txt)))
+	e := ts.UF("jsonErr", SVal, append(append([]*Term{}, hs...), v)...)
+	c.addFactT(st, e, ts.Or(c.eng.tc.IsNilVal(e), ts.App("(_ is VBox)", SBool, e)))
+	return txt, e
+}
+
+// normJsonVal: Map and map[string]interface{} marshal identically: use the plain map representation.
+func (c *FnCtx) normJsonVal(v *Term) *Term {
+	ts := c.eng.ts
+	for id, t := range c.eng.tc.tidTypes {
+		if n, ok := t.(*types.Named); ok && n.Obj().Name() == "Map" && typeKey(n.Underlying()) == "map[string]interface{}" {
+			isMap := c.eng.tc.IsType(t, v)
+			_ = id
+			return ts.Ite(isMap, ts.App("VMap", SVal, c.eng.tc.Unbox(t, v)), v)
+		}
+	}
+	return v
+}
+
+// jsonDecode: Decoder.Decode(&m) for m a map[string]interface{} variable.
+func (c *FnCtx) jsonDecode(fr *Frame, st *State, x *ssa.Call, args []*Term, cc *ssa.CallCommon) []*Term {
+	ts := c.eng.ts
+	tc := c.eng.tc
+	src := c.gget(st, "G:jdSrc", args[0])
+	num := c.gget(st, "G:jdNum", args[0])
+	id := c.ioID(src)
+	data := ts.UF("rddata", SString, id)
+	pos := c.gget(st, "G:rdpos", id)
+	rest := ts.Extract(data, pos, ts.Sub(ts.Len(data), pos))
+	e := ts.UF("jsonDecErr", SVal, rest, num)
+	c.addFact(st, ts.Or(tc.IsNilVal(e), ts.App("(_ is VBox)", SBool, e)))
+	end := ts.UF("jsonDecEnd", SInt, rest)
+	c.addFact(st, ts.And(ts.Le(ts.Int(0), end), ts.Le(end, ts.Len(rest))))
+	c.gset(st, "G:rdpos", id, ts.Add(pos, end))
+	// the target: pointer to a map variable
+	mt := types.NewMap(types.Typ[types.String], types.NewInterfaceType(nil, nil))
+	ptrT := types.NewPointer(mt)
+	target := args[1]
+	if !tc.IsType(ptrT, target).IsTrue() {
+		c.trusted["json/gob Decode into a target that is not a *map[string]interface{}: effect not modelled"] = true
+	}
+	obj := tc.Unbox(ptrT, target)
+	hn, hs := c.ptrHeapName(mt)
+	nm := c.allocObj(st, "decoded")
+	// on success the variable holds a freshly allocated map whose content is the decoded value
+	old := c.hget(st, hn, hs, obj)
+	c.setHeapAt(st, hn, hs, obj, ts.Ite(tc.IsNilVal(e), nm, ts.Fresh("partial", SInt)))
+	_ = old
+	// abstract relation between the new map and the text it was decoded from (for postconditions)
+	mh := c.mapHeaps(st, mt)
+	c.setHeapAt(st, mh.dom, mh.sdom, nm, ts.Fresh("decoded!dom", ArrOf(SString, SBool)))
+	c.setHeapAt(st, mh.sel, mh.ssel, nm, ts.Fresh("decoded!sel", ArrOf(SString, SVal)))
+	c.setHeapAt(st, mh.ln, mh.sln, nm, ts.Fresh("decoded!len", SInt))
+	rel := ts.UF("jsonDecodedAs", SBool, c.heap(st, mh.dom, mh.sdom), c.heap(st, mh.sel, mh.ssel), c.heap(st, mh.ln, mh.sln), nm, rest, num)
+	c.addFact(st, ts.Implies(tc.IsNilVal(e), rel))
+	c.addFact(st, ts.Ge(c.hget(st, mh.ln, mh.sln, nm), ts.Int(0)))
+	return []*Term{e}
+}
+
+func e0(ts *TermStore, hs []*Term, v *Term) *Term {
+	return ts.UF("jsonErr", SVal, append(append([]*Term{}, hs...), v)...)
 }
